@@ -43,6 +43,12 @@ def dataset(fam, ds):
     rng = random.Random(1000003 * ds + {"daily": 1, "billing": 2, "hourly": 3, "caltrack": 4}[fam])
     if fam == "daily":
         d = F.daily_frame(rng, noise=rng.choice([0.03, 0.1, 0.25]), weekend=rng.choice([1.0, 0.7]))
+        # a few odd days, so that the robust (adaptive-alpha) final fit has something to do: with clean data the
+        # adaptive loss stays at alpha = 2 and that whole code path (numba-compiled loss functions) is not exercised
+        r = np.random.default_rng(ds)
+        odd = r.choice(len(d), 25, replace=False)
+        col = d.columns.get_loc("observed")
+        d.iloc[odd, col] = np.maximum(d.iloc[odd, col].to_numpy() + r.normal(0, 0.6 * float(d["observed"].mean()), 25), 0.5)
         r = F.daily_frame(rng, start="2023-01-01", ndays=90)
         out = (F.daily_baseline(d), F.daily_reporting(r))
     elif fam == "billing":
@@ -51,7 +57,7 @@ def dataset(fam, ds):
         out = (F.billing_baseline(m, t), F.billing_reporting(mr, tr))
     elif fam == "hourly":
         ghi = rng.random() < 0.3
-        h = F.hourly_frame(rng, noise=rng.choice([0.05, 0.2]), ghi=ghi)
+        h = F.hourly_frame(rng, noise=rng.choice([0.3, 0.5]), ghi=ghi)   # noisy enough for the clustering to be seed-sensitive
         hr = F.hourly_frame(rng, start="2023-02-01", ndays=21, ghi=ghi)
         out = (F.hourly_baseline(h), F.hourly_reporting(hr))
     else:
@@ -67,6 +73,10 @@ def new_model(fam, cfg, seed):
     if fam == "daily":
         if cfg == "legacy":
             return DailyModel(model="legacy")
+        if cfg == "devalpha":
+            # a developer profile with non-default loss settings (alpha_minimum is documented, default -100)
+            return DailyModel(settings={"developer_mode": True, "silent_developer_mode": True, "alpha_minimum": -20.0,
+                                        "alpha_selection": 1.5})
         if cfg == "nosmooth":
             return DailyModel(settings={"developer_mode": True, "silent_developer_mode": True, "smoothed_model": False})
         return DailyModel()
